@@ -136,6 +136,14 @@ func StmtContexts() []Ctx {
 		c("init-func", "package p\n\nfunc init() {\n\t§\n}\n"),
 		c("go-func-lit", fn("go func() {\n\t\t§\n\t}()")),
 		c("defer-func-lit", fn("defer func() {\n\t\t§\n\t}()")),
+		// function literals that hang off declarations and composite literals rather than statements
+		c("var-func-lit", "package p\n\nvar h = func() {\n\t§\n}\n"),
+		c("var-composite-func-lit", "package p\n\nvar cmd = &Command{Run: func() {\n\t§\n}}\n"),
+		c("var-called-func-lit", "package p\n\nvar _ = func() int {\n\t§\n\treturn 0\n}()\n"),
+		c("local-var-func-lit", fn("var f = func() {\n\t\t§\n\t}\n\t_ = f")),
+		c("const-group-neighbour", "package p\n\nconst (\n\tA = iota\n\tB\n)\n\nfunc after() {\n\t§\n}\n"),
+		c("arg-func-lit", fn("t.Run(\"x\", func() {\n\t\t§\n\t})")),
+		c("return-func-lit", "package p\n\nfunc mk() func() {\n\treturn func() {\n\t\t§\n\t}\n}\n"),
 	}
 }
 
